@@ -210,6 +210,13 @@ func (x *Exec) readVar(s *State, o *types.Var, pos token.Pos) Val {
 	}
 	// a captured variable of an enclosing function that was not bound: arbitrary
 	v := s.freshVal("cap."+o.Name(), o.Type())
+	if x.isBoxed(o) {
+		// its address is taken in the function under verification: it lives in a cell of its own
+		p := s.alloc("cap." + o.Name())
+		s.storePtr(o.Type(), p, v)
+		s.env[o] = Val{K: KInt, T: types.NewPointer(o.Type()), S: p}
+		return s.loadPtr(o.Type(), p)
+	}
 	s.env[o] = v
 	return v
 }
@@ -886,6 +893,9 @@ func (x *Exec) addressOf(s *State, e *ast.UnaryExpr) Val {
 		return Val{K: KInt, T: t, S: r}
 	case *ast.Ident:
 		if o, ok := x.info().Uses[inner].(*types.Var); ok {
+			if _, bound := s.env[o]; !bound && x.isBoxed(o) {
+				x.readVar(s, o, inner.Pos()) // an unbound captured variable: give it its cell
+			}
 			if v, ok := s.env[o]; ok && x.isBoxed(o) {
 				return Val{K: KInt, T: t, S: v.S}
 			}
